@@ -22,6 +22,56 @@ CLAIMS = {
     ),
 }
 
+CLAIMS.update({
+    "C01": (
+        "3/C01",
+        "forbidden-factor language extraction from the filter + minimal-witness decision; call-graph effect summaries; "
+        "context-sensitive string-shape provenance of every file-system/exec path argument; path-sensitive gate analysis",
+        "Structural clauses only: the accept language of the selector filter provably contains no climbing word; every "
+        "handler is gated by filter-AND-test with short-circuit; nothing but stat happens before the gate; the one relaxed "
+        "handler is file-system free; every FS/exec call site on the request path acts on root + accepted selector + safe "
+        "suffix (content-derived selectors must be filtered); decoding happens only before handler selection; nothing "
+        "request-derived is evaluated; real-file handlers refuse archive VFS objects. These are necessary conditions whose "
+        "violation lets a request reach a path outside the root; byte-identity of responses (non-interference) is not decided.",
+        "Trusted: POSIX path semantics; listdir never yields '.'/'..'; receiver-type table of resolve.py; executable content "
+        "(.pyg, CGI, TAL) is administrator code and excluded; symlinks excluded by the property.",
+    ),
+    "C02": (
+        "3/C02",
+        "path-sensitive partial evaluation of every protocol test under the TLS-parity assumption; catch-all/ordering "
+        "analysis of the shipped lists; guard-fact analysis of partial operations; structural analysis of the TLS sniff",
+        "Decides: first-match-wins in configured order; no protocol accepts a connection of the wrong TLS parity; the tests "
+        "are total (cannot raise on any line) and pure; the shipped lists end in a catch-all per parity with nothing dead "
+        "behind it; the sniff peeks exactly one byte with MSG_PEEK, wraps iff it is 0x16, inside the worker, and the "
+        "wrapped socket is what gets served. Which protocol wins for lines that nearly match several shapes is not decided.",
+        "Trusted: socketserver keeps the accepted socket in self.request; ssl.SSLSocket is the type of wrapped sockets.",
+    ),
+    "C03": (
+        "3/C03",
+        "guard-fact analysis over all walker paths for request-tainted partial operations (index, unpack, int(), next(), "
+        "urlparse, match.group) with accept-facts of the class's own test; try/handler structure of every handle(); "
+        "typestate of status lines; effect summaries for persistent writes",
+        "Necessary conditions only: every protocol handle() converts not-found and I/O errors from handler selection into "
+        "its own error reply; status-line protocols write exactly one status and no body after an error; every "
+        "request-derived partial operation on the request path is guarded on every path; handler lookup never falls "
+        "through; the only persistent writes are the two cache files; mailbox constructors' non-I/O errors are converted. "
+        "Absence of all internal errors, bounded time and reply grammar are not decided.",
+        "Trusted: served content is well formed (partial operations on file content are not tracked); Python exception "
+        "semantics of the seven operation kinds; taint seeds (request line, selector, search string, rfile, entry getters).",
+    ),
+    "C16": (
+        "3/C16",
+        "interface-completeness check over the class hierarchy; effect summaries of the archive VFS; partial evaluation of "
+        "handler tests under 'the VFS is an archive VFS'",
+        "Structural clauses: every effectful VFS_Real method is overridden by the archive VFS and the overrides, the index "
+        "builder and symlink resolution have no file-system effect (members come from the in-memory index only); every handler "
+        "that hands getfspath() to a real-file API refuses archive VFS objects (evaluated against the real class hierarchy, so a "
+        "vacuous isinstance test does not count); the inner chain is the ordinary multiplexer on the archive VFS. Equivalence "
+        "with the extracted tree is not decided.",
+        "Trusted: zipfile.ZipFile methods act only on the already opened archive.",
+    ),
+})
+
 NOT_APPLICABLE = {
     "C09": "input/output relation of the gophermap line parser against a reference reading of the file; no structural "
            "invariant short of re-implementing (i.e. running) the parser - static analysis cannot decide it (DESIGN.md section 4)",
